@@ -32,6 +32,7 @@ type Profile struct {
 	BigArith    bool // arithmetic mutations whose result does not fit
 	IndexPlay   int  // permil: the transaction is one of the index patterns (swap, hand-over, delete+reinsert, duplicates)
 	DupName     int  // permil: two inserts claim the same uuid-name
+	GCChain     int  // permil: the transaction sets up, or triggers, a chain of garbage collections with weak references to every link
 	SimpleWhere bool // where clauses restricted to _uuid ==, "all rows" and scalar equality (keeps condition-evaluation defects out of other properties' checks)
 }
 
@@ -40,7 +41,7 @@ var ProfValid = Profile{Name: "valid", MaxOps: 6, WInsert: 30, WUpdate: 20, WMut
 var ProfFail = Profile{Name: "fail", MaxOps: 6, WInsert: 30, WUpdate: 20, WMutate: 25, WDelete: 10, WSelect: 5, WWait: 2, FailPermil: 450, BadCommit: 350, Named: 300, ExplicitID: 1000, SameRow: 300, Compose: 500, MaxRows: 7}
 var ProfSameRow = Profile{Name: "samerow", MaxOps: 7, WInsert: 15, WUpdate: 30, WMutate: 35, WDelete: 12, WSelect: 3, WWait: 0, FailPermil: 0, BadCommit: 0, Named: 200, ExplicitID: 600, SameRow: 850, Compose: 500, MaxRows: 6}
 var ProfNamed = Profile{Name: "named", MaxOps: 7, WInsert: 45, WUpdate: 20, WMutate: 25, WDelete: 5, WSelect: 5, WWait: 0, FailPermil: 0, BadCommit: 30, Named: 900, ExplicitID: 400, SameRow: 300, Compose: 800, MaxRows: 7, DupName: 60}
-var ProfRefs = Profile{Name: "refs", MaxOps: 6, WInsert: 35, WUpdate: 20, WMutate: 25, WDelete: 18, WSelect: 2, WWait: 0, FailPermil: 0, BadCommit: 100, Named: 600, ExplicitID: 500, SameRow: 400, Compose: 850, MaxRows: 6}
+var ProfRefs = Profile{Name: "refs", MaxOps: 6, WInsert: 35, WUpdate: 20, WMutate: 25, WDelete: 18, WSelect: 2, WWait: 0, FailPermil: 0, BadCommit: 100, Named: 600, ExplicitID: 500, SameRow: 400, Compose: 850, MaxRows: 6, GCChain: 150}
 
 var ProfIndex = Profile{Name: "index", MaxOps: 4, WInsert: 35, WUpdate: 30, WMutate: 10, WDelete: 20, WSelect: 5, WWait: 0, FailPermil: 0, BadCommit: 0, Named: 200, ExplicitID: 700, SameRow: 300, Compose: 700, MaxRows: 6, IndexPlay: 650}
 
@@ -636,6 +637,20 @@ func (g *Gen) opMutate(t *Table) []Op {
 			used[c.Name] = true
 		}
 	}
+	if g.prof.BigArith && g.chance(50) {
+		// additions and subtractions that leave the 64-bit integers whatever the
+		// column holds: three steps of 2^62 in one direction ("range error")
+		for _, cn := range t.ColNames {
+			c := t.Columns[cn]
+			if c.Type.IsScalar() && c.Type.Key.Type == "integer" && len(c.Type.Key.Enum) == 0 && !c.Immutable && g.chance(500) {
+				m := []string{"+=", "-="}[g.pick(2)]
+				for k := 0; k < 3; k++ {
+					muts = append(muts, []any{cn, m, int64(1) << 62})
+				}
+				break
+			}
+		}
+	}
 	if muts == nil {
 		return nil
 	}
@@ -923,6 +938,16 @@ func (g *Gen) Txn() ([]Op, TxnMeta) {
 		}
 		ops = append(ops, add...)
 	}
+	if g.chance(g.prof.GCChain) {
+		saveNamed, saveDecl := g.named, g.decl
+		g.named, g.decl = map[string][]string{}, map[string]string{}
+		if play, kind := g.gcChain(); play != nil {
+			meta.Planted = "gc-chain:" + kind
+			meta.NamedDecl = g.decl
+			return play, meta
+		}
+		g.named, g.decl = saveNamed, saveDecl
+	}
 	if g.chance(g.prof.IndexPlay) {
 		// the operations built so far are dropped: so are the names they declared
 		saveNamed, saveDecl := g.named, g.decl
@@ -970,6 +995,150 @@ func (g *Gen) Txn() ([]Op, TxnMeta) {
 	}
 	meta.NamedDecl = g.decl
 	return ops, meta
+}
+
+// gcChain builds the two halves of a chained garbage collection that meets weak
+// references on every link. Set-up (when the state holds no such structure): a
+// row of a root table holds the only reference to a row a of a non-root table,
+// a holds the only reference to a row b of the same table, and a row of another
+// root table refers weakly to a and b (and, half of the time, to a third row
+// that stays, so that the weak set keeps its minimum). Trigger (when it does):
+// the root row lets go of a. a is collected, then b, and the weak references to
+// both have to go, or the transaction has to be rejected over the minimum.
+func (g *Gen) gcChain() ([]Op, string) {
+	sch := g.sch
+	strongTo := func(t *Table, to string, wantSelf bool) string {
+		for _, cn := range t.ColNames {
+			c := t.Columns[cn]
+			if !c.Type.IsMap() && c.Type.Key.RefTable == to && c.Type.Key.RefType != "weak" && c.Type.Min == 0 {
+				return cn
+			}
+		}
+		return ""
+	}
+	for _, tn := range sch.TableNames {
+		t := sch.Tables[tn]
+		if sch.IsRoot(tn) {
+			continue
+		}
+		self := strongTo(t, tn, true)
+		if self == "" {
+			continue
+		}
+		var rt, wt *Table
+		var rc, wc string
+		for _, on := range sch.TableNames {
+			o := sch.Tables[on]
+			if !sch.IsRoot(on) {
+				continue
+			}
+			if rt == nil {
+				if cn := strongTo(o, tn, false); cn != "" {
+					rt, rc = o, cn
+				}
+			}
+			if wt == nil {
+				for _, cn := range o.ColNames {
+					c := o.Columns[cn]
+					if !c.Type.IsMap() && c.Type.Key.RefTable == tn && c.Type.Key.RefType == "weak" && c.Type.Max != 1 {
+						wt, wc = o, cn
+					}
+				}
+			}
+		}
+		if rt == nil || wt == nil {
+			continue
+		}
+		// strong references to a row of t, as (table, row, column) sites
+		sites := func(u string) int {
+			n := 0
+			for _, on := range sch.TableNames {
+				for _, cn := range sch.Tables[on].ColNames {
+					c := sch.Tables[on].Columns[cn]
+					for _, b := range []*BaseType{c.Type.Key, c.Type.Val} {
+						if b == nil || b.RefTable != tn || b.RefType == "weak" {
+							continue
+						}
+						for _, row := range g.st[on] {
+							v := row[cn]
+							for _, a := range v.Set {
+								if a.S == u {
+									n++
+								}
+							}
+							for _, p := range v.Map {
+								if (b == c.Type.Key && p.K.S == u) || (b == c.Type.Val && p.V.S == u) {
+									n++
+								}
+							}
+						}
+					}
+				}
+			}
+			return n
+		}
+		// trigger: is the structure there?
+		for _, ru := range g.rowsOf(rt.Name) {
+			held := g.st[rt.Name][ru][rc]
+			if len(held.Set) != 1 {
+				continue
+			}
+			a := held.Set[0].S
+			arow, ok := g.st[tn][a]
+			if !ok || len(arow[self].Set) != 1 || sites(a) != 1 {
+				continue
+			}
+			b := arow[self].Set[0].S
+			if _, ok := g.st[tn][b]; !ok || b == a || sites(b) != 1 {
+				continue
+			}
+			for _, wu := range g.rowsOf(wt.Name) {
+				w := g.st[wt.Name][wu][wc]
+				if w.Has(AUUID(a)) && w.Has(AUUID(b)) {
+					if g.chance(300) && sch.IsRoot(rt.Name) {
+						return []Op{{"op": "delete", "table": rt.Name, "where": g.whereUUID(ru)}}, "trigger-delete"
+					}
+					return []Op{{"op": "update", "table": rt.Name, "where": g.whereUUID(ru), "row": map[string]any{rc: []any{"set", []any{}}}}}, "trigger-release"
+				}
+			}
+		}
+		// set-up
+		mk := func(t *Table) (map[string]any, string, bool) {
+			row, ok := g.rowFor(t, false)
+			return row, g.uuidFor(t.Name), ok
+		}
+		uu := func(us ...string) any {
+			var l []any
+			for _, u := range us {
+				l = append(l, []any{"uuid", u})
+			}
+			return []any{"set", l}
+		}
+		brow, b, ok1 := mk(t)
+		arow, a, ok2 := mk(t)
+		krow, k, ok3 := mk(t)
+		rrow, r, ok4 := mk(rt)
+		r2row, r2, ok5 := mk(rt)
+		wrow, w, ok6 := mk(wt)
+		if !(ok1 && ok2 && ok3 && ok4 && ok5 && ok6) {
+			return nil, ""
+		}
+		arow[self] = uu(b)
+		rrow[rc] = uu(a)
+		r2row[rc] = uu(k)
+		kind := "setup"
+		if g.chance(500) {
+			wrow[wc] = uu(a, b, k)
+		} else {
+			wrow[wc] = uu(a, b)
+			kind = "setup-min"
+		}
+		ins := func(t *Table, u string, row map[string]any) Op {
+			return Op{"op": "insert", "table": t.Name, "row": row, "uuid": u}
+		}
+		return []Op{ins(t, b, brow), ins(t, a, arow), ins(t, k, krow), ins(rt, r, rrow), ins(rt, r2, r2row), ins(wt, w, wrow)}, kind
+	}
+	return nil, ""
 }
 
 // indexPlay builds a whole transaction around one schema index: patterns that
@@ -1141,6 +1310,41 @@ func (g *Gen) indexPlay() ([]Op, string) {
 		}
 		out = append(out, byValue(va), byValue(vb))
 		return out, kind + "+lookups"
+	}
+	if len(t.Indexes) > 1 && g.chance(200) {
+		// a row that duplicates row b on one index while, on another index, it takes
+		// the value of row a, which the transaction deletes (or moves away): the first
+		// collision is legitimate, the second must still be seen. Must be rejected.
+		i0 := g.pick(len(t.Indexes))
+		i1 := (i0 + 1 + g.pick(len(t.Indexes)-1)) % len(t.Indexes)
+		ix := map[string]any{}
+		for _, c := range t.Indexes[i0] {
+			ix[c] = ValueToWire(g.st[t.Name][a][c], true)
+		}
+		for _, c := range t.Indexes[i1] {
+			ix[c] = ValueToWire(g.st[t.Name][b][c], true)
+		}
+		if row, ok := newRow(ix); ok {
+			ins := Op{"op": "insert", "table": t.Name, "row": row, "uuid": g.uuidFor("i")}
+			var away Op
+			if g.chance(500) {
+				away = Op{"op": "delete", "table": t.Name, "where": g.whereUUID(a)}
+			} else {
+				fr := map[string]any{}
+				for _, c := range t.Indexes[i0] {
+					if t.Columns[c].Type.Key.Type == "string" {
+						fr[c] = fmt.Sprintf("f%d", g.pick(1000))
+					} else {
+						fr[c] = 100 + g.pick(1000)
+					}
+				}
+				away = upd(a, fr)
+			}
+			if g.chance(500) {
+				return []Op{away, ins}, "masked-final-dup"
+			}
+			return []Op{ins, away}, "masked-final-dup"
+		}
 	}
 	switch g.pick(8) {
 	case 0:
